@@ -98,7 +98,7 @@ def layers(tier, seed):
     refs, pool, sets = e2e.query_sets(n, 'c08', size=(3, 4))
     if tier != 'quick' or seed:
         sets = sets + e2e.query_sets(3 if tier == 'quick' else 40, 'c08-seed-%d' % seed, size=(3, 4))[2]
-    ws = [e2e.set_world(refs, pool, s, nrefs=(3, 1, 2)[i % 3]) for i, s in enumerate(sets)]
+    ws = [e2e.set_world(refs, pool, s, nrefs=(3, 1, 2)[i % 3], ref_ids=(17, 4, 30) if i % 4 == 1 else None) for i, s in enumerate(sets)]
     extras = tuple(('-diff', str(d)) for d in (0, 20000, 100000, 500000))
     return [e2e.WorldLayer('worlds', ws, judge, extras=extras,
                            bounds=dict(worlds=len(ws), maxDifference=[0, 20000, 100000, 500000], modes=list(e2e.MODES)),
